@@ -279,7 +279,15 @@ func RunJobs(ctx *Ctx, jobs []Job, opt SpawnOpt) []JobOutcome {
 			// a worker never outlives its parent, and is killed if it overruns the run's deadline by far
 			kctx, cancel := context.WithDeadline(context.Background(), ctx.Deadline.Add(workerGrace))
 			defer cancel()
-			cmd := exec.CommandContext(kctx, bin, "worker", string(jb))
+			jobArg := string(jb)
+			if len(jobArg) > 60000 { // a single argument is limited to 128 KiB by the kernel
+				jf := filepath.Join(j.Scratch, "job.json")
+				if err := os.WriteFile(jf, jb, 0o644); err != nil {
+					Harnessf("job file: %v", err)
+				}
+				jobArg = "@" + jf
+			}
+			cmd := exec.CommandContext(kctx, bin, "worker", jobArg)
 			cmd.SysProcAttr = &syscall.SysProcAttr{Pdeathsig: syscall.SIGKILL}
 			cmd.Env = append(os.Environ(), opt.Env...)
 			raceLog := ""
@@ -313,6 +321,10 @@ func RunJobs(ctx *Ctx, jobs []Job, opt SpawnOpt) []JobOutcome {
 				o.Err = fmt.Sprintf("worker %s/%d was stopped %v after the deadline without a result", j.Name, j.Shard, workerGrace)
 			} else {
 				o.Err = fmt.Sprintf("worker %s/%d died without result: %v", j.Name, j.Shard, err)
+				if _, exited := err.(*exec.ExitError); !exited && err != nil {
+					// the process never ran (fork/exec failed): a problem of the machinery, not of the code under test
+					o.Stderr = "HARNESS ERROR: cannot start worker: " + err.Error() + "\n" + o.Stderr
+				}
 			}
 			out[i] = o
 			os.RemoveAll(j.Scratch)
@@ -360,6 +372,10 @@ func Collect(ctx *Ctx, outs []JobOutcome, onDeath func(o JobOutcome) *Violation)
 			}
 			if IsHarnessFailure(o.Stderr) {
 				Harnessf("%s\nstderr: %s", o.Err, o.Stderr)
+			}
+			// SIGKILL from outside (the kernel's out-of-memory killer, an operator): says nothing about the code under test
+			if strings.Contains(o.Err, "signal: killed") && crashLine(o.Stderr) == "process died without a Go panic message" {
+				Harnessf("%s: the worker was killed from outside (SIGKILL; out of memory?)\nstderr: %s", o.Err, o.Stderr)
 			}
 			// the worker process was killed by the code under test (fatal runtime error, unrecovered panic in another
 			// goroutine, os.Exit ...): that is an observation about the code, reported with the job as its replay case
